@@ -17,7 +17,8 @@ RULE = ("2-5 targets x 1-2 commands; per target: base/named/missing argmap files
 
 ARGS = ["plain", "two words", "", 'q"uote', "it's", "ünï", "a=b", "--looks-like-flag=1", "tab\tx", "{json}", "$HOME", "*", "back\\slash", "日本"]
 
-def case(ctx, rng):
+def case(ctx, rng, deps_directed=False):
+    """deps_directed: a named target reaches an unnamed dependency through --deps, and that dependency has argument maps of its own"""
     n = rng.randint(2, 5)
     names_pool = ["dev", "ci", "extra", "missing"]
     targets, files, defs_by_target, dir_by_target, argdir_by_target = [], [], {}, {}, {}
@@ -35,6 +36,7 @@ def case(ctx, rng):
         elif rng.random() < 0.3:
             t["commands"] = {"path": p + "/scripts"}; dir_by_target[p] = p + "/scripts"
         else: dir_by_target[p] = p + "/monorail/cmd"
+        if targets and (rng.random() < 0.5 or deps_directed): t["uses"] = [rng.choice(targets)]          # dependencies: reached by --deps without being named
         cfg_targets.append(t); targets.append(p)
     cfg = {"targets": cfg_targets}
     rr = runscen.RunRepo(ctx, cfg, commands=[])
@@ -80,22 +82,26 @@ def case(ctx, rng):
         for t in cfg_targets:
             p = t["path"]; d = os.path.join(rr.repo, argdir_by_target[p]); os.makedirs(d, exist_ok=True)
             for nm in ["base"] + names_pool[:3]:
-                if rng.random() < 0.6:
+                if rng.random() < 0.6 or (deps_directed and nm == "base"):
                     cm = {}
-                    for c in rng.sample(["build", "test", "other"], rng.randint(0, 3)):
-                        cm[c] = [rng.choice(ARGS) for _ in range(rng.randint(0, 3))]
+                    for c in (["build", "test"] if deps_directed and nm == "base" else rng.sample(["build", "test", "other"], rng.randint(0, 3))):
+                        cm[c] = [rng.choice(ARGS) for _ in range(rng.randint(1 if deps_directed else 0, 3))]
                     json.dump(cm, open(os.path.join(d, nm + ".json"), "w"))
                     files.append([p, nm, [[c, a] for c, a in cm.items()]])
         vlib.write_config(rr.repo, cfg)     # definitions were added after the repository was created
         json.dump({**json.load(open(os.path.join(rr.repo, "Monorail.json")))}, open(os.path.join(rr.repo, "Monorail.json"), "w"))
-        use_base = rng.random() < 0.75
+        use_base = rng.random() < 0.75 or deps_directed
         names = [rng.choice(names_pool) for _ in range(rng.choice([0, 1, 2, 3]))]
-        single = rng.random() < 0.35
+        single = rng.random() < 0.35 or deps_directed
         run_targets = [rng.choice(targets)] if single else (targets if rng.random() < 0.5 else rng.sample(targets, rng.randint(1, n)))
+        if deps_directed: run_targets = [targets[-1]]          # the last declared target always uses an earlier one
         run_cmds = [cmds[0]] if single else cmds
         args = ["-c"] + run_cmds
         explicit = single or set(run_targets) != set(targets)
-        if explicit: args += ["-t"] + run_targets
+        with_deps = False
+        if explicit:
+            args += ["-t"] + run_targets
+            if rng.random() < 0.4 or deps_directed: args.append("--deps"); with_deps = True
         if names: args += ["-m"] + names
         if not use_base: args.append("--no-base-argmaps")
         run_args = []
@@ -115,6 +121,9 @@ def case(ctx, rng):
             by[(cmd, t["target"])] = t
         queries, cwd_ok, multi = [], True, False
         status = {(cmd, t): st for cmd, gs in runscen.result_statuses(out) for g in gs for t, (st, code) in g.items()}
+        if with_deps:
+            # every target the run reached (named or pulled in as a dependency) is a run target: its argument maps are loaded too
+            run_targets = sorted(set(t for (_, t) in status) | set(run_targets)); ctx.count("with_deps")
         for c in run_cmds:
             for p in run_targets:
                 if status.get((c, p)) == "skipped": continue      # an earlier not-executable entry stopped the run: nothing to compare
@@ -149,12 +158,12 @@ def run(ctx, scale):
     for _ in range((40 if ctx.quick() else 400) * scale):
         cs = ctx.rng.getrandbits(32)
         n0 = len(ctx.spec_failures), len(ctx.tie_breaks)
-        case(ctx, random.Random(cs))
+        case(ctx, random.Random(cs), deps_directed=(_ % 8 == 7))
         for lst in (ctx.spec_failures, ctx.tie_breaks):
             for c, d in lst:
-                if isinstance(c, dict) and "case_seed" not in c: c["case_seed"] = cs
+                if isinstance(c, dict) and "case_seed" not in c: c["case_seed"] = cs; c["deps_directed"] = (_ % 8 == 7)
 
 def replay(ctx, c):
     c = c.get("case", c)
-    case(ctx, random.Random(c["case_seed"]))
+    case(ctx, random.Random(c["case_seed"]), deps_directed=c.get("deps_directed", False))
     return {"spec_failures": [d for _, d in ctx.spec_failures][:3], "disagreements": [d for _, d in ctx.tie_breaks][:3]}
